@@ -86,7 +86,7 @@ def cfgs(tier, seed):
                     for NP in (1, 2, 3):
                         for pred in ((None,) if len(M) == 1 else (None, 'fine_only', 'pfasst_burnin')):
                             out.append(dict(base, sweeper=sw, qd=rng.choice(['IE', 'LU', 'MIN-SR-S', 'MIN', 'Qpar'] if sw != 'explicit' else ['EE']), prob=prob, n=n, M=M, NP=NP,
-                                            maxiter=(3 if NP * len(M) * n > 3 else 4), predict=pred, jac=rng.choice([True, False]),
+                                            maxiter=(3 if NP * len(M) * n >= 3 else 4), predict=pred, jac=rng.choice([True, False]),
                                             nsweeps=rng.choice([1, 1, 2]) if len(M) > 1 else 1, residual_type=(rng.choice(['full_abs', 'full_abs', 'full_rel']) if n == 1 else 'full_abs'), quad_type=(rng.choice(['RADAU-RIGHT', 'RADAU-RIGHT', 'LOBATTO', 'GAUSS']) if len(M) == 1 else rng.choice(['RADAU-RIGHT', 'LOBATTO'])),
                                             finter=(rng.random() < 0.3 and len(M) > 1), initial_guess=rng.choice(['spread', 'spread', 'zero', 'copy']),
                                             all_to_done=(rng.random() < 0.25), cu=(rng.random() < 0.2 and len(M) == 1)))
@@ -95,7 +95,7 @@ def cfgs(tier, seed):
         def ok(c):
             if c.get('quad_type') in ('LOBATTO', 'RADAU-LEFT') and min(c['M']) < 2:
                 return False  # these rules need at least two nodes
-            if c['n'] >= 3 and (c['NP'] > 1 or len(c['M']) > 1):
+            if c['n'] >= 3 and (c['NP'] > 1 or len(c['M']) > 1 or c['M'][0] > 2):
                 return False  # three coupled unknowns only for single-step single-level runs (solver time, measured)
             return c['NP'] * len(c['M']) * c['n'] <= 4
 
@@ -251,24 +251,35 @@ def float_reference(cfg, x):
 
 def triage(rep, cfg, m, xs, name, clause):
     rep.replayed += 1
-    x = [float(model_value(m, v)) for v in xs]
-    try:
-        steps, uend, cst = float_reference(cfg, x)
-    except Exception as e:
-        rep.unreproduced(f'{name}:{clause}', f'{type(e).__name__}: {e}')
-        return
-    bad = []
-    for k, s in enumerate(steps):
-        if not s['chained']:
-            bad.append(('chaining', k))
-        if s['iter'] < cfg['maxiter']:
-            scale = np.abs(s['u0']).max() if cfg.get('residual_type', 'full_abs').endswith('rel') else 1.0
-            if np.abs(s['uend'] - s['coll']).max() > cst * cfg['restol'] * scale * (1 + 1e-6):
-                bad.append(('collocation-solution', k, float(np.abs(s['uend'] - s['coll']).max()), cst * cfg['restol'] * scale))
-    if steps and not np.array_equal(uend, steps[-1]['uend']):
-        bad.append(('returned-value',))
+    x0 = [float(model_value(m, v)) for v in xs]
+    # the float run may take another convergence path than the symbolic one the model belongs to (tolerance comparisons at the boundary):
+    # a few further start values are tried before the model is called unreproduced; a violation is only reported for a value that fails on the real code
+    cands = [x0] + [[c_] * len(xs) for c_ in (1.0, -1.0, 0.5, -0.25, 0.75)]
+    bad, x = [], x0
+    for x in cands:
+        try:
+            steps, uend, cst = float_reference(cfg, x)
+        except Exception as e:
+            if x is x0:
+                rep.unreproduced(f'{name}:{clause}', f'{type(e).__name__}: {e}')
+                return
+            continue
+        bad = []
+        for k, s in enumerate(steps):
+            if not s['chained']:
+                bad.append(('chaining', k))
+            if s['iter'] < cfg['maxiter']:
+                scale = np.abs(s['u0']).max() if cfg.get('residual_type', 'full_abs').endswith('rel') else 1.0
+                if np.abs(s['uend'] - s['coll']).max() > cst * cfg['restol'] * scale * (1 + 1e-6):
+                    bad.append(('collocation-solution', k, float(np.abs(s['uend'] - s['coll']).max()), cst * cfg['restol'] * scale))
+        if steps and not np.array_equal(uend, steps[-1]['uend']):
+            bad.append(('returned-value',))
+        if bad:
+            break
+    if not bad:
+        x = x0
     if bad:
-        quad_end = cfg.get('quad_type', 'RADAU-RIGHT') in ('GAUSS', 'RADAU-LEFT')
+        quad_end = cfg.get('quad_type', 'RADAU-RIGHT') in ('GAUSS', 'RADAU-LEFT') or bool(cfg.get('cu'))  # end value by quadrature (no right end node, or collocation update)
         if quad_end and cfg['NP'] >= 3 and all(b[0] in ('chaining', 'returned-value') for b in bad):
             key = f'{PID}/chaining/quadrature-end-point/three-or-more-parallel-steps'
         else:
